@@ -11,6 +11,9 @@ Regenerated from /repo's working tree (AST only, nothing is imported from scrapl
     signatures of all send_* methods of the four generic/network driver classes (must agree)
   * the level `send_configs` resolves an empty privilege_level to (`_pre_send_configs`)
   * CPython's str.splitlines() separator set, probed from the running interpreter
+  * control-structure SHAPE assertions (raise TranslateError when the hand-modelled control flow changes):
+    for/break/else loop of send_commands, abort step of send_configs, statement order of _pre_send_configs,
+    write-then-return of send_input, acquire-first wrappers of NetworkDriver, splitlines in file / send_config paths
 """
 import ast
 
@@ -244,6 +247,194 @@ def abort_plan(rel, cls):
     return f".direct none {lstrs(cmds)} {lstr(belief)}"
 
 
+# ---------- control-structure shape assertions (the model's control flow is hand-written; these make the
+# translator notice when the code's structure stops being the one that was modelled)
+def _unp(node):
+    return ast.unparse(node).replace("await ", "")
+
+
+def _calls(node, pred):
+    return [n for n in ast.walk(node) if isinstance(n, ast.Call) and pred(n)]
+
+
+def _kw(call):
+    return {k.arg: _unp(k.value) for k in call.keywords}
+
+
+def shape_send_commands(rel, cls):
+    """`for … in commands[:-1]` (all but the last) whose body sends the command with the caller's eager flag and
+    ends the loop with `break` under `stop_on_failed and response.failed…`; `else:` sends `commands[-1]` with
+    eager=False; nothing is sent outside the loop and its else."""
+    where = f"{rel}:{cls}.send_commands"
+    fn = _method(rel, cls, "send_commands")
+    loops = [n for n in ast.walk(fn) if isinstance(n, (ast.For, ast.AsyncFor, ast.While))]
+    if len(loops) != 1 or not isinstance(loops[0], ast.For):
+        raise TranslateError(f"{where}: expected exactly one for loop, found {len(loops)}")
+    lp = loops[0]
+    it = _unp(lp.iter).replace(" ", "")
+    if "commands[:" not in it or not ("-1]" in it or "len(commands)-1]" in it):
+        raise TranslateError(f"{where}: loop does not run over all but the last command: {it}")
+    is_send = lambda c: _is_self_attr(c.func, "_send_command")
+    body_calls = [c for st in lp.body for c in _calls(st, is_send)]
+    else_calls = [c for st in lp.orelse for c in _calls(st, is_send)]
+    all_calls = _calls(fn, is_send)
+    if len(body_calls) != 1 or len(else_calls) != 1 or len(all_calls) != 2:
+        raise TranslateError(f"{where}: expected one _send_command in the loop body and one in its else branch "
+                             f"({len(body_calls)}/{len(else_calls)}/{len(all_calls)})")
+    kb, ke = _kw(body_calls[0]), _kw(else_calls[0])
+    for k in ("failed_when_contains", "eager_input"):
+        if kb.get(k) != k or ke.get(k) != k:
+            raise TranslateError(f"{where}: {k} is not forwarded unchanged")
+    if kb.get("eager") != "eager" or ke.get("eager") != "False":
+        raise TranslateError(f"{where}: eager flags of the two _send_command calls are {kb.get('eager')}/{ke.get('eager')}")
+    if ke.get("command", "").replace(" ", "") != "commands[-1]":
+        raise TranslateError(f"{where}: else branch does not send commands[-1]: {ke.get('command')}")
+    tgt = lp.target
+    names = {n.id for n in ast.walk(tgt) if isinstance(n, ast.Name)}
+    if kb.get("command") not in names:
+        raise TranslateError(f"{where}: loop body does not send the loop variable: {kb.get('command')}")
+    brk = [n for n in lp.body if isinstance(n, ast.If) and len(n.body) == 1 and isinstance(n.body[0], ast.Break) and not n.orelse]
+    if len(brk) != 1 or lp.body[-1] is not brk[0] or len([n for n in ast.walk(lp) if isinstance(n, (ast.Break, ast.Continue))]) != 1:
+        raise TranslateError(f"{where}: loop body does not end in a single guarded break")
+    t = brk[0].test
+    ok = isinstance(t, ast.BoolOp) and isinstance(t.op, ast.And) and len(t.values) == 2 and _unp(t.values[0]) == "stop_on_failed" \
+        and _unp(t.values[1]) in ("response.failed is True", "response.failed", "response.failed == True")
+    if not ok:
+        raise TranslateError(f"{where}: break guard is {_unp(t)}")
+    # the responses are appended in both places, before the break test
+    for blk, nm in ((lp.body, "body"), (lp.orelse, "else")):
+        if not any("responses.append(response)" == _unp(st) for st in blk):
+            raise TranslateError(f"{where}: loop {nm} does not append the response")
+    return True
+
+
+def shape_send_configs(rel, cls):
+    """_pre_send_configs → acquire if belief != level → super().send_commands(commands=configs, stop/eager/markers
+    forwarded) → `if stop_on_failed and responses.failed: self._abort_config()` → return"""
+    where = f"{rel}:{cls}.send_configs"
+    fn = _method(rel, cls, "send_configs")
+    stmts = _body(fn)
+    text = [_unp(st) for st in stmts]
+    def find(pred, what):
+        idx = [i for i, t in enumerate(text) if pred(t)]
+        if len(idx) != 1:
+            raise TranslateError(f"{where}: expected exactly one statement '{what}', found {len(idx)}")
+        return idx[0]
+    i_pre = find(lambda t: "self._pre_send_configs(" in t, "_pre_send_configs")
+    i_acq = find(lambda t: t.startswith("if self._current_priv_level.name != resolved_privilege_level:") and "self.acquire_priv(desired_priv=resolved_privilege_level)" in t, "conditional acquire_priv")
+    i_send = find(lambda t: "super().send_commands(" in t, "super().send_commands")
+    i_ab = find(lambda t: "_abort_config" in t, "_abort_config")
+    i_ret = find(lambda t: t.startswith("return "), "return")
+    if not (i_pre < i_acq < i_send < i_ab < i_ret) or len(stmts) != 5:
+        raise TranslateError(f"{where}: statement order / count changed: {[t[:50] for t in text]}")
+    ab = stmts[i_ab]
+    if not (isinstance(ab, ast.If) and not ab.orelse and len(ab.body) == 1 and _unp(ab.body[0]) == "self._abort_config()"
+            and _unp(ab.test) in ("stop_on_failed and responses.failed", "responses.failed and stop_on_failed")):
+        raise TranslateError(f"{where}: abort step is `{text[i_ab][:120]}`")
+    send = _calls(stmts[i_send], lambda c: isinstance(c.func, ast.Attribute) and c.func.attr == "send_commands")[0]
+    kw = _kw(send)
+    want = {"commands": "configs", "failed_when_contains": "failed_when_contains", "stop_on_failed": "stop_on_failed", "eager": "eager",
+            "eager_input": "eager_input"}
+    for k, v in want.items():
+        if kw.get(k) != v:
+            raise TranslateError(f"{where}: super().send_commands gets {k}={kw.get(k)}")
+    if "_abort_config" in _unp(_method("scrapli/driver/network/base_driver.py", "BaseNetworkDriver", "_post_send_configs")):
+        raise TranslateError("_post_send_configs now calls _abort_config")
+    return True
+
+
+def shape_pre_send_configs():
+    """order of `_pre_send_configs`: type check, generic-mode check, marker resolution (None / str / else), level
+    validation / default, return"""
+    where = "BaseNetworkDriver._pre_send_configs"
+    fn = _method("scrapli/driver/network/base_driver.py", "BaseNetworkDriver", "_pre_send_configs")
+    text = [_unp(st) for st in _body(fn)]
+    keys = ["if not isinstance(configs, list):", "if self._generic_driver_mode is True:", "if failed_when_contains is None:",
+            "if privilege_level:", "return (resolved_privilege_level, final_failed_when_contains)"]
+    if len(text) != len(keys) or any(not t.startswith(k) for t, k in zip(text, keys)):
+        raise TranslateError(f"{where}: statements are {[t.splitlines()[0] for t in text]}")
+    f = text[2]
+    for frag in ("final_failed_when_contains = self.failed_when_contains", "elif isinstance(failed_when_contains, str):",
+                 "final_failed_when_contains = [failed_when_contains]", "else:\n    final_failed_when_contains = failed_when_contains"):
+        if frag not in f:
+            raise TranslateError(f"{where}: marker resolution lacks `{frag}`")
+    if "raise ScrapliPrivilegeError" not in text[1] or "_validate_privilege_level_name(privilege_level_name=privilege_level)" not in text[3]:
+        raise TranslateError(f"{where}: generic-mode / level validation changed")
+    return True
+
+
+def shape_send_input(rel, cls):
+    """inside the channel lock: exactly one write of the input, then exactly one send_return; send_return writes
+    the return char once"""
+    where = f"{rel}:{cls}.send_input"
+    fn = _method(rel, cls, "send_input")
+    withs = [n for n in ast.walk(fn) if isinstance(n, (ast.With, ast.AsyncWith)) and "_channel_lock" in _unp(n.items[0].context_expr)]
+    if len(withs) != 1:
+        raise TranslateError(f"{where}: expected one channel-lock block")
+    w = _calls(fn, lambda c: _is_self_attr(c.func, "write"))
+    r = _calls(fn, lambda c: _is_self_attr(c.func, "send_return"))
+    wi = _calls(withs[0], lambda c: _is_self_attr(c.func, "write"))
+    ri = _calls(withs[0], lambda c: _is_self_attr(c.func, "send_return"))
+    if len(w) != 1 or len(r) != 1 or len(wi) != 1 or len(ri) != 1:
+        raise TranslateError(f"{where}: {len(w)} write / {len(r)} send_return calls")
+    if _kw(w[0]) != {"channel_input": "channel_input"} or w[0].args or r[0].args or r[0].keywords:
+        raise TranslateError(f"{where}: write/send_return arguments changed")
+    top = withs[0].body
+    iw = next(i for i, st in enumerate(top) if w[0] in list(ast.walk(st)))
+    ir = next(i for i, st in enumerate(top) if r[0] in list(ast.walk(st)))
+    if not (iw < ir) or not isinstance(top[iw], ast.Expr) or not isinstance(top[ir], ast.Expr):
+        raise TranslateError(f"{where}: the input is no longer written unconditionally before the return")
+    sr = _method("scrapli/channel/base_channel.py", "BaseChannel", "send_return")
+    if [_unp(st) for st in _body(sr)] != ["self.write(channel_input=self._base_channel_args.comms_return_char)"]:
+        raise TranslateError("BaseChannel.send_return no longer writes comms_return_char once")
+    wr = _method("scrapli/channel/base_channel.py", "BaseChannel", "write")
+    if _unp(_body(wr)[-1]) != "self.transport.write(channel_input=channel_input.encode())":
+        raise TranslateError("BaseChannel.write no longer ends in transport.write(channel_input.encode())")
+    return True
+
+
+def shape_network_wrappers(rel, cls):
+    """NetworkDriver.send_command(s) / *_from_file: acquire the default level first, default the markers, delegate"""
+    for m, inner in (("send_command", "send_command"), ("send_commands", "send_commands"), ("send_commands_from_file", "send_commands_from_file")):
+        where = f"{rel}:{cls}.{m}"
+        text = [_unp(st) for st in _body(_method(rel, cls, m))]
+        if not text or text[0] != "self._acquire_appropriate_privilege_level()":
+            raise TranslateError(f"{where}: does not start with _acquire_appropriate_privilege_level()")
+        if len(text) < 3 or text[1] != "if failed_when_contains is None:\n    failed_when_contains = self.failed_when_contains":
+            raise TranslateError(f"{where}: marker defaulting changed")
+        if sum(f"super().{inner}(" in t for t in text) != 1:
+            raise TranslateError(f"{where}: does not delegate to super().{inner} exactly once")
+    text = [_unp(st) for st in _body(_method(rel, cls, "send_config"))]
+    if len(text) != 3 or "self._pre_send_config(config=config)" not in text[0] or "self.send_configs(" not in text[1] \
+            or "configs=split_config" not in text[1] or text[2] != "return self._post_send_config(config=config, multi_response=multi_response)":
+        raise TranslateError(f"{rel}:{cls}.send_config: shape changed")
+    text = [_unp(st) for st in _body(_method(rel, cls, "send_configs_from_file"))]
+    if len(text) != 2 or "self._pre_send_from_file(file=file" not in text[0] or "return self.send_configs(" not in text[1] or "configs=configs" not in text[1]:
+        raise TranslateError(f"{rel}:{cls}.send_configs_from_file: shape changed")
+    return True
+
+
+def control_shapes():
+    out = {}
+    for stack, cls in (("sync", "GenericDriver"), ("async", "AsyncGenericDriver")):
+        out[f"loopBreakElse{stack.capitalize()}"] = shape_send_commands(f"scrapli/driver/generic/{stack}_driver.py", cls)
+    for stack, cls in (("sync", "NetworkDriver"), ("async", "AsyncNetworkDriver")):
+        out[f"abortAfterLoop{stack.capitalize()}"] = shape_send_configs(f"scrapli/driver/network/{stack}_driver.py", cls)
+        out[f"networkWrappers{stack.capitalize()}"] = shape_network_wrappers(f"scrapli/driver/network/{stack}_driver.py", cls)
+    out["preSendConfigsOrder"] = shape_pre_send_configs()
+    for stack, cls in (("sync", "Channel"), ("async", "AsyncChannel")):
+        out[f"writeThenReturn{stack.capitalize()}"] = shape_send_input(f"scrapli/channel/{stack}_channel.py", cls)
+    fn = _method("scrapli/driver/generic/base_driver.py", "BaseGenericDriver", "_pre_send_from_file")
+    if "commands = f.read().splitlines()" not in _unp(fn) or "open(resolved_file, encoding='utf-8')" not in _unp(fn):
+        raise TranslateError("_pre_send_from_file no longer reads the file in text mode and splits with splitlines()")
+    out["fileReadSplitlines"] = True
+    fn = _method("scrapli/driver/network/base_driver.py", "BaseNetworkDriver", "_pre_send_config")
+    if "split_config = config.splitlines()" not in _unp(fn):
+        raise TranslateError("_pre_send_config no longer uses splitlines()")
+    out["configSplitlines"] = True
+    return out
+
+
 # ---------- module level tables
 def _module_value(rel, name):
     for node in _parse(rel).body:
@@ -444,6 +635,11 @@ def generate():
         pre, post = session_template(p, cls)
         b += f"/-- {p} session pattern template: {_cmt(pre)} ++ <escaped name> ++ {_cmt(post)} -/\n"
         b += f"def sessionPre{SHORT[p].capitalize()} : List Char := {lstr(pre)}\ndef sessionPost{SHORT[p].capitalize()} : List Char := {lstr(post)}\n"
+    b += "\n/-- control-structure shapes asserted on the AST (TranslateError otherwise): for / break / else loop of\n    send_commands, abort step of send_configs, order of _pre_send_configs, write-then-return of send_input,\n    acquire-first wrappers, splitlines in the file / send_config paths -/\n"
+    shapes = control_shapes()
+    for k, v in shapes.items():
+        b += f"def shape{k[0].upper()}{k[1:]} : Bool := {'true' if v else 'false'}\n"
+    b += "def controlShapes : List Bool := [" + ", ".join(f"shape{k[0].upper()}{k[1:]}" for k in shapes) + "]\n"
     b += "\nend Scrapli.Gen.Send\n"
     return [("ScrapliModel/Gen/SendConsts.lean", b)]
 
